@@ -164,11 +164,14 @@ def check_file(t, sname, L, seed, big=False, il=False):
         data = G.encode(hist, seed=seed)[0]
     probs = []
     reads = 0
-    for lazy in (False, True):
-        for raw_ts in (False, True):
+    for lazy, raw_ts, memmap in [(l_, r_, m_) for l_ in (False, True) for r_ in (False, True) for m_ in (False, True)]:
+        if True:
             if raw_ts and t not in ('TimeStamp', 'TimeStampWhole'):
                 continue
-            r = H.guarded(lambda: (H.TdmsFile.open if lazy else H.TdmsFile.read)(io.BytesIO(data), raw_timestamps=raw_ts))
+            r = H.guarded(lambda: (H.TdmsFile.open if lazy else H.TdmsFile.read)(io.BytesIO(data), raw_timestamps=raw_ts,
+                                                                                memmap_dir=_memmap_dir() if memmap else None))
+            # the mode is reported as 'lazy' / 'eager' with '+memmap' appended
+            lazy = ('lazy' if lazy else 'eager') + ('+memmap' if memmap else '')
             if r[0] != 'ok':
                 probs.append(('open-raised', 'open', lazy, raw_ts, None, repr(r)))
                 continue
@@ -183,7 +186,7 @@ def check_file(t, sname, L, seed, big=False, il=False):
                 if len(ch) != n * chunks:
                     probs.append(('len', 'len', lazy, raw_ts, n * chunks, len(ch)))
                 nonempty_dtypes = set()
-                for name, op in ops_for(tf, ch, lazy, n * chunks):
+                for name, op in ops_for(tf, ch, lazy.startswith('lazy'), n * chunks):
                     rr = H.guarded(op)
                     reads += 1
                     if rr[0] != 'ok':
@@ -203,9 +206,23 @@ def check_file(t, sname, L, seed, big=False, il=False):
                     if name in ('full', 'ellipsis', 'read_data', 'data') and hasattr(rr[1], '__len__') and len(rr[1]) != len(ch):
                         probs.append(('full-read-length', name, lazy, raw_ts, len(ch), len(rr[1])))
             finally:
-                if lazy:
+                if lazy.startswith('lazy'):
                     tf.close()
     return reads, probs
+
+
+_MM = []
+
+
+def _memmap_dir():
+    if not _MM:
+        import atexit
+        import os
+        import shutil
+        import tempfile
+        _MM.append(H.scratch('verif_c14_'))
+        atexit.register(shutil.rmtree, _MM[0], True)
+    return _MM[0]
 
 
 def _worker(item):
